@@ -294,6 +294,8 @@ def run_case(concepts, case, spec):
         call(list, a.upset())
         call(list, b.downset())
         call(lat.__getitem__, tuple(a.extent))
+    if len(ctx.objects) <= 12 and len(ctx.properties) <= 12 and sl.n <= 200:
+        common.interference(concepts, ctx, lat, rng, 15)
     old = POOL.older(rng)
     if old is not None:
         with core.monitor_code():
